@@ -92,6 +92,12 @@ PROTO_SCENARIOS = [
     # closes the first section early and folds the last section (two areas) into it across the origin
     (True, [[7, 0, 1, 1, "p"], [4, 4, 1, 2, "p"], [5, 5, 0, 1, "q"], [2, 2, 0, 0, "p"]]),
     (True, [[7, 0, 0, 1, "p"], [5, 5, 0, 1, "p"], [6, 6, 0, 0, "q"], [5, 6, 0, 0, "r"], [2, 3, 0, 0, "p"]]),
+    # protoclusters equal in every respect (the same area sideloaded twice, or two cores of a CUTOFF 0 rule extended to the same
+    # place): nothing in their content can order them, so only the order they were added in may decide
+    (False, [[2, 2, 1, 1, "p"], [2, 2, 1, 1, "p"]]),
+    (False, [[2, 2, 1, 1, "p"], [2, 2, 1, 1, "p"], [5, 5, 1, 1, "q"]]),
+    (False, [[2, 3, 1, 1, "p"], [2, 3, 1, 1, "p"], [3, 4, 1, 1, "q"], [3, 4, 1, 1, "q"]]),
+    (True, [[7, 0, 1, 1, "p"], [7, 0, 1, 1, "p"], [1, 1, 1, 2, "q"]]),
 ]
 
 
